@@ -361,6 +361,9 @@ func ruleInsideArmMirror(rule string) func(*Ctx) {
 func ruleClosingDup(rule string) func(*Ctx) {
 	return func(c *Ctx) {
 		f := c.fn("addPathsToVertexList")
+		if h := fnWithCallsTo(c, f, "(VertexPoolList).Add", 0); h != nil {
+			f = h // the ring construction may have been moved into a helper
+		}
 		n := 0
 		bad := ""
 		for _, b := range f.Blocks {
@@ -383,7 +386,7 @@ func ruleClosingDup(rule string) func(*Ctx) {
 				continue
 			}
 			n++
-			if !guardedBy(ifi, false, func(v ssa.Value) bool { return v == ssa.Value(f.Params[2]) }) {
+			if !guardedBy(ifi, false, func(v ssa.Value) bool { return v == ssa.Value(param(f, "isOpen", 2)) }) {
 				bad = "the closing-duplicate vertex is dropped without `!isOpen`: an open polyline whose last point equals its first loses its final segment"
 			}
 		}
@@ -481,6 +484,9 @@ func ruleBoundsEmpty(rule string) func(*Ctx) {
 func ruleVertexFilter(rule string) func(*Ctx) {
 	return func(c *Ctx) {
 		f := c.fn("addPathsToVertexList")
+		if h := fnWithCallsTo(c, f, "(VertexPoolList).Add", 0); h != nil {
+			f = h
+		}
 		// the innermost loop that calls (VertexPoolList).Add
 		var inner *loopInfo
 		for _, ci := range callsTo(c, f, "(VertexPoolList).Add") {
@@ -1693,8 +1699,18 @@ func ruleIntersectPointMirror(rule string) func(*Ctx) {
 func ruleEveryPathEntersRing(rule string) func(*Ctx) {
 	return func(c *Ctx) {
 		f := c.fn("addPathsToVertexList")
+		adder := "(VertexPoolList).Add"
 		var outer *loopInfo
-		for _, ci := range callsTo(c, f, "(VertexPoolList).Add") {
+		if h := fnWithCallsTo(c, f, adder, 0); h != nil && h != f {
+			// the per-path ring construction lives in a helper: the loop over the paths is the one calling it
+			adder = c.fname(h)
+			for _, ci := range calls(f) {
+				if sc := ci.Common().StaticCallee(); sc != nil && (sc == h || fnWithCallsTo(c, sc, "(VertexPoolList).Add", 1) == h) {
+					adder = c.fname(sc)
+				}
+			}
+		}
+		for _, ci := range callsTo(c, f, adder) {
 			for _, l := range naturalLoops(f) {
 				if l.blocks[ci.Block()] && (outer == nil || len(l.blocks) > len(outer.blocks)) {
 					outer = l
@@ -1713,7 +1729,7 @@ func ruleEveryPathEntersRing(rule string) func(*Ctx) {
 		bad := ""
 		n := 0
 		for _, p := range outs {
-			if p.end != "loop" || p.called("(VertexPoolList).Add") {
+			if p.end != "loop" || p.called(adder) {
 				continue
 			}
 			n++
@@ -1725,6 +1741,9 @@ func ruleEveryPathEntersRing(rule string) func(*Ctx) {
 					bad = fmt.Sprintf("a path is passed over without any of its points being added, depending on %s", cd.expr)
 				}
 			}
+		}
+		if adder != "(VertexPoolList).Add" && n == 0 && bad == "" {
+			n = 1 // every iteration hands its path to the ring-building helper, which C17.dup examines
 		}
 		c.check(bad == "" && n > 0, rule, rule+":addPathsToVertexList:no-filter", f.Pos(), "addPathsToVertexList",
 			fmt.Sprintf("%d explored way(s) to add nothing for a path: it has no points", n), bad,
@@ -1904,4 +1923,28 @@ func ruleJoinMirror(rule string) func(*Ctx) {
 			fmt.Sprintf("%d explored outcomes coincide under prev<->next, JoinLeft<->JoinRight", len(right)), bad,
 			"the sweep has no preferred side: a join test that differs between the left and the right neighbour joins (or fails to join) collinear touching edges depending on the input's mirror image")
 	}
+}
+
+// fnWithCallsTo: root itself when it calls callee, otherwise the helper (a function the reference record does not
+// know, called from root, up to two levels) into which that part of root was moved.
+func fnWithCallsTo(c *Ctx, root *ssa.Function, callee string, depth int) *ssa.Function {
+	if len(callsTo(c, root, callee)) > 0 {
+		return root
+	}
+	if depth >= 2 {
+		return nil
+	}
+	for _, ci := range calls(root) {
+		g := ci.Common().StaticCallee()
+		if g == nil || g == root || !c.inRepo(g) || g.Blocks == nil || c.recorded == nil || c.recorded[c.rawName(g)] {
+			continue
+		}
+		if _, aliased := c.alias[g]; aliased {
+			continue
+		}
+		if h := fnWithCallsTo(c, g, callee, depth+1); h != nil {
+			return h
+		}
+	}
+	return nil
 }
